@@ -35,6 +35,46 @@ LUA_PURE_GLOBALS = {"type", "pairs", "ipairs", "rawequal", "rawget", "rawlen", "
                     "__DICT_META"}
 
 
+DEAD_METATABLES = {"__SET_META", "__DICT_META"}   # constructors __SET / __DICT are never emitted (the library uses __LUA_*_META)
+
+
+def _truth_uses(c):
+    """sub-expressions of a condition whose *truth* decides (through not / and / or / parentheses)"""
+    if not isinstance(c, dict):
+        return
+    k = c.get("k")
+    if k == "Paren":
+        yield from _truth_uses(c["e"])
+    elif k == "Unop" and c.get("op") == "not":
+        yield from _truth_uses(c["e"])
+    elif k == "Binop" and c.get("op") in ("and", "or"):
+        yield from _truth_uses(c["l"])
+        yield from _truth_uses(c["r"])
+    else:
+        yield c
+
+
+def nil_tests_by_truth(f):
+    """index expressions on a parameter of f whose truth is used as a condition"""
+    params = set(f["params"])
+    out = []
+    for x in luaparse.walk(f["body"]):
+        cs = []
+        if x.get("k") == "If":
+            cs = [c for c, _ in x["clauses"] if c is not None]
+        elif x.get("k") in ("While", "Repeat"):
+            cs = [x.get("cond") or x.get("c")]
+        for c in cs:
+            for t in _truth_uses(c):
+                if t.get("k") == "Index":
+                    base = t
+                    while base.get("k") == "Index":
+                        base = base["obj"]
+                    if base.get("k") == "Name" and base["name"] in params:
+                        out.append(t)
+    return out
+
+
 def meta_functions(ast):
     """{(META, name): function node} for assignments META.name = function .. end"""
     out = {}
@@ -67,6 +107,11 @@ def run(F, rep, tier):
     ordering(rep, mf)
     concat(rep, ast)
     checker(F, rep, mf)
+    # what the operators mean element-wise is what the checker admits element-wise: the accept tables of add/sub/mul/div/cmp
+    # (a tuple arm that recurses into *another* operator's checker admits that operator's operands: `+` on tuples of strings
+    # is rejected when the elements are checked as `-`)
+    import c03
+    c03.accept(F, rep, "CHECKER-AGREES")
     import c07
     c07.guard_discipline(F, rep)
 
@@ -213,6 +258,16 @@ def equality(rep, mf):
                "%s.%s writes %s / reads the globals %s: the verdict depends on comparisons made before (an early `return false` "
                "that leaves a record behind makes a later comparison of the same list answer true without looking at the elements)"
                % (meta, name, writes or "nothing", reads or "none"), "preamble.lua:%s" % f["line"])
+    # whether an entry is there is a comparison with nil: a field, element or payload may hold `false`, which a test of
+    # the entry's truth (`if not a[k]`) reads as `missing`
+    for (meta, name), f in sorted(mf.items()):
+        if meta in DEAD_METATABLES or name not in ("__eq", "__lt", "__le", "__tostring", "__add", "__sub", "__mul", "__div", "__unm"):
+            continue
+        bad = nil_tests_by_truth(f)
+        rep.ob("EQ" if name == "__eq" else "ORDER" if name in ("__lt", "__le") else "ARITH", "%s|%s|presence-is-compared-with-nil" % (meta, name), not bad,
+               "%s.%s never uses the truth of an operand's entry as a presence test" % (meta, name) if not bad else
+               "%s.%s tests `%s` for truth: an entry that holds `false` counts as missing - two blobs equal field by field, one bool "
+               "field false, compare unequal" % (meta, name, luaparse.show(bad[0])), "preamble.lua:%s" % ((bad[0].get("line") if bad else None) or f["line"]))
     # no __ne-like override: Lua derives ~= from __eq; nothing in the preamble may shadow that
     bad = [k for k in mf if k[1] in ("__ne", "__neq")]
     rep.ob("EQ", "complement", not bad, "`!=` is Lua's negation of __eq (no separate metamethod)")
